@@ -196,7 +196,7 @@ func C16(c *core.Ctx) {
 		c.Viol("R16.1", "unguarded-access:"+k, a.pos, fmt.Sprintf("%s (%d site(s)): another goroutine can access the same table concurrently — a data race", a.msg, a.n))
 	}
 	c.Ok("R16.1", "guarded-accesses", "-", fmt.Sprintf("%d accesses to guarded table fields in fw/table; %d under the right lock on every path (or frozen after reading)", nAcc, nOK))
-	c.Floor("R16.1", "accesses to guarded table fields", nAcc, 150)
+	c.Floor("R16.1", "accesses to guarded table fields", nAcc, 100)
 	c.Extra["guarded_fields"] = len(c16Guards)
 
 	// ---- R16.2 escape
@@ -366,7 +366,7 @@ func C16(c *core.Ctx) {
 			c.Decide(okRel, "R16.3", fmt.Sprintf("lock-released:%s:%s", core.FuncName(fn), id.Name), c.Pos(in), id.Name+" is released on every exit", core.FuncName(fn)+" can return with the table lock still held ("+id.Name+" without "+want+" on some path): every later operation on the table deadlocks")
 		})
 	}
-	c.Floor("R16.3", "Lock/RLock calls in fw/table", nLocks, 20)
+	c.Floor("R16.3", "Lock/RLock calls in fw/table", nLocks, 12)
 	// lock order: functions of the FIB files never call into the RIB
 	orderBad := ""
 	for _, fn := range p.FuncsIn(pkg) {
